@@ -672,8 +672,8 @@ class Interp:
 
     def for_init(self, frame, s):
         t = s["var"][-1]
+        # the bounds and the step are evaluated before the counter is assigned (FOR I = 1 TO I + 5)
         lo = convert(self.eval(frame, s["lo"]), t)
-        self.set_var(frame, s["var"], lo)
         hi = convert(self.eval(frame, s["hi"]), t)
         if s.get("step") is not None:
             st = self.eval(frame, s["step"])
@@ -689,6 +689,7 @@ class Interp:
             st = cst
         else:
             st = (t, 1) if t in "%&" else (t, Fraction(1))
+        self.set_var(frame, s["var"], lo)
         frame.loops[s["id"]] = (hi, st)
 
     def for_test(self, frame, s):
